@@ -17,7 +17,7 @@
    locked deposits and pool creations (monitors mon_C04 / mon_C01x on the implementation).
    Statements only. *)
 From MD.Model Require Import Base Ownable Epoch PoolMath Types PoolManager FarmManager Chain.
-From MD.Proofs Require Import PoolMathProofs BankProofs SwapProofs ChainProofs PmProofs LiquidityProofs PoolCustody PoolCustodyChain NonVacuity SingleSided TxBalances TxExcess PmChainProofs LockedExcess CreateExcess ExcessLedger.
+From MD.Proofs Require Import PoolMathProofs BankProofs SwapProofs ChainProofs PmProofs LiquidityProofs PoolCustody PoolCustodyChain NonVacuity SingleSided TxBalances TxExcess PmChainProofs LockedExcess SingleLockedExcess CreateExcess ExcessLedger.
 
 Theorem C01_backed_in_every_reachable_world : forall g w0 ops,
   genesis_world g = Ok w0 -> 0 <= amount_of (fm_create_fee (g_fm g)) ->
@@ -191,13 +191,39 @@ Theorem C01_excess_through_ownership_and_configuration : forall w sender funds m
   forall d, slackP w' d = slackP w d.
 Proof. exact admin_tx_excess. Qed.
 
-(* THE EXCESS CLAUSE OVER HISTORIES of the core pool operations (any number of swaps, routes, withdrawals, unlocked deposits
-   of one or several assets, locked deposits of two or more assets, pool creations, ownership and configuration messages, plain bank sends, block changes, injected faults, rejected operations, in any order, by any
-   users): for every denom that is not an LP denom, the excess after the history is EXACTLY the initial excess plus the
-   ledger — and every ledger entry (ExcessLedger.gift) is either the amount of a plain bank send to the contract or the one
-   indivisible unit of an accepted odd single-asset deposit, zero for every other operation. (good_run: every operation
-   is of these kinds, not signed by the pool manager, does not name the pool manager itself as receiver; the fee collector
-   is not the pool manager itself; LP denoms are canonical — which holds in every reachable world, lp_inv.) *)
+(* a SINGLE-ASSET deposit whose LP is locked in the farm manager (swap of half to the pool manager itself, reply, deposit of the
+   kept half and the proceeds, mint to the pool manager, nested call of the farm manager): exactly the odd unit stays behind
+   (plus the minimum liquidity of a first deposit in the LP denom) *)
+Theorem C01_excess_through_a_locked_single_asset_deposit : forall w sender funds ls ss r pid dur l deposit w',
+  sender <> PM -> pm_farm_manager (pm_cfg (w_pm w)) = FM -> aggregate_coins funds = Ok [deposit] ->
+  run_tx w sender PM (WPm (PmProvide ls ss r pid (Some dur) l)) funds = Ok w' ->
+  exists p askc sim minliq,
+    pool_find (w_pm w) pid = Ok p /\
+    query_simulation (w_pm w) (denom_of deposit, amount_of deposit / 2) (denom_of askc) pid = Ok sim /\ 0 <= minliq /\
+    forall d, slackP w' d = slackP w d
+                + ind (String.eqb (denom_of deposit) d) (amount_of deposit mod 2)
+                + ind (String.eqb PM (pm_fee_collector (pm_cfg (w_pm w)))) (ind (String.eqb (denom_of askc) d) (sc_protocol_fee sim))
+                + ind (String.eqb (p_lp p) d) minliq.
+Proof. exact single_asset_locked_tx_excess. Qed.
+
+(* transactions to the epoch manager and to the fee collector do not concern the pool manager *)
+Theorem C01_excess_through_epoch_manager_and_fee_collector_transactions : forall w sender target m funds w',
+  sender <> PM -> target = EM \/ target = FC ->
+  run_tx w sender target m funds = Ok w' ->
+  forall d, slackP w' d = slackP w d.
+Proof. exact em_fc_tx_excess. Qed.
+
+(* THE EXCESS CLAUSE OVER HISTORIES: for any history made of EVERY KIND OF POOL-MANAGER MESSAGE (pool creations, deposits of one
+   or several assets - unlocked or locked in the farm manager -, swaps, routes, withdrawals, ownership and configuration
+   messages with the feature switches), of transactions to the epoch manager and the fee collector, plain bank sends, block
+   changes, injected faults, rejected operations, in any order, by any users: for every denom that is not an LP denom, the excess
+   after the history is EXACTLY the initial excess plus the ledger - and every ledger entry (ExcessLedger.gift) is either the
+   amount of a plain bank send to the contract or the one indivisible unit of an accepted odd single-asset deposit, zero for
+   every other operation. (good_run: no operation is signed by the pool manager or names it as receiver of a swap or an
+   unlocked deposit; at every step the fee collector is not the pool manager itself, the farm manager address is the farm
+   manager, LP denoms are canonical and the fees are small - the last two hold in every reachable world. Only transactions sent
+   directly to the farm manager are outside this theorem; for them the lower bound C01_backed_in_every_reachable_world and
+   the monitors apply.) *)
 Theorem C01_excess_is_exactly_donations_plus_odd_units : forall ops w d,
   good_run w ops -> asset_denom d -> slackP (run w ops) d = slackP w d + ledger w ops d.
 Proof. exact excess_ledger. Qed.
@@ -232,3 +258,5 @@ Print Assumptions C01_ledger_example.
 Print Assumptions C01_excess_through_a_locked_deposit.
 Print Assumptions C01_excess_through_a_pool_creation.
 Print Assumptions C01_excess_through_ownership_and_configuration.
+Print Assumptions C01_excess_through_a_locked_single_asset_deposit.
+Print Assumptions C01_excess_through_epoch_manager_and_fee_collector_transactions.
